@@ -165,8 +165,6 @@ def shards(tier, seed):
         for name in NAMED_SHAPES:
             out.append({"kind": "named", "name": name, "depth": 4, "accumulate": False})
         for name in MODEL_SPECS:
-            if name.startswith("mixture"):
-                continue
             out.append({"kind": "model", "name": name, "depth": 2, "thorough": False})
     else:
         for n in (2, 3, 4):
@@ -178,8 +176,6 @@ def shards(tier, seed):
         for name in NAMED_SHAPES:
             out.append({"kind": "named", "name": name, "depth": 6, "accumulate": False})
         for name in MODEL_SPECS:
-            if name.startswith("mixture"):
-                continue
             out.append({"kind": "model", "name": name, "depth": 3, "thorough": True})
     return out
 
